@@ -23,6 +23,7 @@ META = {
         "(a) every prefix renamed through a permutation chosen from 4 fresh-name schemes (incl. reuse of ns0/ns1/xsi for other URIs), consistently inside xsi:type and QName-typed values; optionally the root's namespace moved to the default namespace",
         "(b) attribute order reversed; (c) white-space-only strings (symbolic over space/tab/LF/CR, <= 2) as text before the first child and as tail of every child of element-only content",
         "(d) symbolic white space around non-string leaf values; (e) all in-scope declarations redundantly repeated on a selector-chosen descendant",
+        "(f) inside a selector-chosen subtree every in-scope prefix is shadowed (re-bound to a dummy URI) and replaced by a fresh one; later siblings keep using the outer binding",
     ],
     "outside": ["comments, PIs, CDATA, character references, encodings, XInclude file loading: resolved inside expat/libxml2 before the seam"],
     "stubs": ["SAX seam", "CrossHair model pack", "XmlContext.get_subclasses(object) iterates the model pool"],
@@ -73,15 +74,24 @@ def _wsok(s):
 
 
 def _rename_value(v, mapping):
-    toks = v.split(" ")
-    out = []
-    for t in toks:
-        pfx, sep, loc = t.partition(":")
-        if sep and pfx in mapping:
-            out.append(mapping[pfx] + ":" + loc)
+    """Rename the prefix of every white-space separated QName token, keeping the white space as it is."""
+    out, tok = [], []
+
+    def flush():
+        if tok:
+            t = "".join(tok)
+            pfx, sep, loc = t.partition(":")
+            out.append(mapping[pfx] + ":" + loc if sep and pfx in mapping else t)
+            del tok[:]
+
+    for ch in v:
+        if ch in " \t\n\r":
+            flush()
+            out.append(ch)
         else:
-            out.append(t)
-    return " ".join(out)
+            tok.append(ch)
+    flush()
+    return "".join(out)
 
 
 def _rename_prefixes(root, scheme, use_default):
@@ -119,8 +129,45 @@ def _rename_prefixes(root, scheme, use_default):
             n.text = _rename_value(n.text, mapping)
 
 
-def rewrite(scheme: int, dflt: bool, rev: bool, ws0: str, ws1: str, pad: str, rd: int) -> bool:
+def _shadow(root, target):
+    """(f) Inside the subtree of `target` every prefix in scope is re-bound to a dummy URI and a fresh prefix takes over its
+    role (QName-typed values and xsi:type inside the subtree are renamed); elements after the subtree still use the outer bindings."""
+    scope = {}
+
+    def collect(n, sc):
+        sc = dict(sc)
+        for p, u in n.ns:
+            sc[p] = u
+        if n is target:
+            scope.update(sc)
+            return True
+        for c in n.children:
+            if collect(c, sc):
+                return True
+        return False
+
+    collect(root, {})
+    mapping = {p: "s_" + p for p in scope if p is not None}
+    if not mapping:
+        return
+    own = {p for p, _ in target.ns}
+    target.ns = [(p, u) for p, u in target.ns if p not in mapping] + [(mapping[p], u) for p, u in scope.items() if p in mapping] + [(p, "urn:shadowed:" + p) for p in mapping]
+    tkey = "{%s}type" % XSI
+    for n in mutate.nodes(target):
+        if n is not target:
+            n.ns = [((mapping.get(p, p)) if p is not None else None, u) for p, u in n.ns]
+        if tkey in n.attrs:
+            n.attrs[tkey] = _rename_value(n.attrs[tkey], mapping)
+        for a in QN_ATTR.get(_DOC, []):
+            if a in n.attrs:
+                n.attrs[a] = _rename_value(n.attrs[a], mapping)
+        if n.qname in QN_TEXT.get(_DOC, []) and n.text:
+            n.text = _rename_value(n.text, mapping)
+
+
+def rewrite(scheme: int, dflt: bool, rev: bool, ws0: str, ws1: str, pad: str, rd: int, sh: int) -> bool:
     """
+    pre: sh == PART.get("sh", -1)
     pre: scheme == PART.get("scheme", 0)
     pre: dflt == bool(PART.get("dflt", 0))
     pre: rev == bool(PART.get("rev", 0))
@@ -136,6 +183,9 @@ def rewrite(scheme: int, dflt: bool, rev: bool, ws0: str, ws1: str, pad: str, rd
     st = _setup()
     root = st["base"].copy()
     _rename_prefixes(root, scheme, dflt)
+    csh = PART.get("sh", -1)
+    if csh > 0:  # structural rewrites first (they see concrete strings), white space afterwards
+        _shadow(root, mutate.nodes(root)[csh])
     ns_all = []
     for n in mutate.nodes(root):
         if rev:
@@ -209,5 +259,9 @@ def plan(tier):
                         if quick and (scheme, dflt, rev) not in (((d_i) % 4, d_i % 2, 1), ((d_i + 1) % 4, (d_i + 1) % 2, 0), ((d_i + 2) % 4, 1, d_i % 2)):
                             continue
                         jobs.append(Job("rewrite", {"doc": doc, "writer": writer, "scheme": scheme, "dflt": dflt, "rev": rev}, 240 if quick else 900, 30))
+            # (f) prefix shadowing inside the subtree of each child of the root (quick: the first two children)
+            n_nodes = len(mutate.nodes(mutate.tree_for(mutate.DOCS[doc][1])))
+            for sh in (range(1, min(n_nodes, 3)) if quick else range(1, n_nodes)):
+                jobs.append(Job("rewrite", {"doc": doc, "writer": writer, "scheme": (d_i + sh) % len(SCHEMES), "dflt": 0, "rev": sh % 2, "sh": sh}, 240 if quick else 900, 30))
     jobs.append(Job("base_url", {"doc": "basic"}, 60, 10))
     return jobs
